@@ -173,18 +173,38 @@ def rxn_string(rx, case):
                         include_TS=False).replace(' ', '')
 
 
+def _clamped(rx, name, unit, T):
+    """H / G activation value from the plain (unclamped) state differences: max(0, TS barrier, reaction change)"""
+    from pmutt import constants as c_
+    from pmutt.reaction import Reaction
+    plain = Reaction(reactants=rx.reactants, reactants_stoich=rx.reactants_stoich, products=rx.products,
+                     products_stoich=rx.products_stoich, transition_state=rx.transition_state,
+                     transition_state_stoich=rx.transition_state_stoich)
+    q = 'H' if '_H' in name else 'G'
+    f = getattr(plain, 'get_delta_%soRT' % q)
+    vals = [0.0, float(f(act=False, T=T))]
+    if rx.transition_state is not None:
+        vals.append(float(f(act=True, T=T)))
+    v = max(vals)
+    return v if 'oRT' in name else v * c_.R(unit + '/K') * T
+
+
 def expected_numbers(rx, r, case, surface):
-    """A, beta, Ea as the model gives them (formatted like the writer's float format)"""
+    """A, beta, Ea as the model gives them (formatted like the writer's float format); enthalpy / Gibbs activation values
+    are recomputed from the unclamped state differences rather than taken from the reaction's own clamped getter"""
     ff = '{:%s}' % case['float_format']
     T = case['T']
     if r['kind'] == 'ads':
         A = rx.sticking_coeff
-        Ea = getattr(rx, case['ads_act'])(units=case['unit'], T=T)
+        Ea = _clamped(rx, case['ads_act'], case['unit'], T)
     else:
         inc = case['act'] not in ('get_GoRT_act', 'get_G_act')
         A = rx.get_A(include_entropy=inc, sden_operation=case['sden_op'] if surface else None, T=T)
-        m = getattr(rx, case['act'])
-        Ea = m(units=case['unit'], T=T) if 'oRT' not in case['act'] else m(T=T)
+        if case['act'] in ('get_H_act', 'get_G_act', 'get_HoRT_act', 'get_GoRT_act'):
+            Ea = _clamped(rx, case['act'], case['unit'], T)
+        else:
+            m = getattr(rx, case['act'])
+            Ea = m(units=case['unit'], T=T) if 'oRT' not in case['act'] else m(T=T)
     return [ff.format(A).strip(), ff.format(r['beta']).strip(), ff.format(Ea).strip()]
 
 
